@@ -30,7 +30,7 @@ class C01:
     variants = ("fast", "asan")
     rule = ("(a) all token sequences up to length 5 (quick) / 6 (thorough) over a 14-token alphabet (five declared names, "
             "an unknown name, a value, = += { } ( ) ,) against three fixed schemas x {no flags, IGNORE_UNKNOWN}, which "
-            "visits every (parser state, token) pair; (b) Hypothesis: random schemas (all option kinds and flags, depth <= 3) "
+            "visits every (parser state, token) pair; (b) Hypothesis: random schemas (all option kinds and flags incl. top-level CFG_SIMPLE_* options, depth <= 3) "
             "or hand-built ones x context flags x sequences of 1-4 grammar-derived texts with 0-3 token mutations, parsed "
             "into the same context. Oracle: language model decides accept/reject and the full tree after each accepted "
             "text. Non-trivial = accepted text changing >= 2 options, or a rejected text whose offending token is not the "
